@@ -1,6 +1,6 @@
 (* C08 proofs: the three implementation models refine the abstract view. *)
 From Coq Require Import ZArith NArith List Bool Lia Permutation Sorted.
-From FV Require Import Common.ListX Common.Bytes.
+From FV Require Import Common.ListX Common.Bytes Common.PyIter.
 From FV Require Import gen.Gen_client_datasets_pre gen.Gen_federated_data gen.Gen_in_memory_federated_data gen.Gen_sqlite_federated_data.
 From FV Require Import Model.C08_Model.
 From FV Require Model.C15_Model Proofs.C15_Proofs.
@@ -80,8 +80,15 @@ Proof.
   - destruct (forallb (fun i0 => bmem i0 have) l); [discriminate|reflexivity].
 Qed.
 
-Lemma gets_items_pair (get : id -> res dataset) req : gets_items (fun i => (i, get i)) req = gets get req.
+Lemma gets_items_pair (get : id -> res dataset) req : for_yield (fun i => (i, get i)) req = gets get req.
 Proof. induction req as [|i req IH]; cbn; [reflexivity|]. rewrite IH. reflexivity. Qed.
+
+Lemma for_yield_all {X K D} (item : X -> K * res D) (k : X -> K) (g : X -> D) l :
+  (forall x, In x l -> item x = (k x, Val (g x))) -> for_yield item l = (map (fun x => (k x, g x)) l, Done).
+Proof.
+  induction l as [|x l IH]; intros H; cbn; [reflexivity|].
+  rewrite (H x) by now left. rewrite IH by (intros; apply H; now right). reflexivity.
+Qed.
 
 Lemma range_where_spec st sp i : sqlite_range_where st sp i = Some (in_range (st, sp) i).
 Proof. destruct st, sp; cbn; unfold in_range; cbn; rewrite ?andb_true_r; reflexivity. Qed.
@@ -92,12 +99,26 @@ Proof. reflexivity. Qed.
 Lemma client_size_in_range_spec st sp i : sqlite_client_size_in_range st sp i = in_range (st, sp) i.
 Proof. reflexivity. Qed.
 
-Lemma sql_select_spec st sp tbl :
+Lemma sql_select_spec st sp (tbl : table) :
   sql_select st sp tbl = Some (filter (fun kv => in_range (st, sp) (fst kv)) tbl).
 Proof.
-  induction tbl as [|[i r] t IH]; cbn [sql_select filter fst]; [reflexivity|].
+  induction tbl as [|[i r] t IH]; cbn [sql_where filter fst]; [reflexivity|].
   rewrite range_where_spec, IH. reflexivity.
 Qed.
+
+Lemma sqlite_client_size_spec st sp (tbl : table) i :
+  sqlite_client_size col_num_examples st sp tbl i =
+  if in_range (st, sp) i then match bassoc i tbl with Some r => Val (stored_len r) | None => KeyErr end else KeyErr.
+Proof. unfold sqlite_client_size, sql_by_key. destruct (bassoc i tbl); reflexivity. Qed.
+
+Lemma sqlite_get_client_spec cs bs st sp (tbl : table) i :
+  sqlite_get_client col_data (sql_dataset_of cs bs) st sp tbl i =
+  if in_range (st, sp) i then match bassoc i tbl with Some r => Val (client_dataset i cs bs r) | None => KeyErr end else KeyErr.
+Proof. unfold sqlite_get_client, sql_by_key. destruct (bassoc i tbl); reflexivity. Qed.
+
+Ltac gen_unfold :=
+  unfold sqlite_num_clients, sqlite_client_ids, sqlite_client_sizes, sqlite_read_clients, fetch_all,
+         col_data, col_num_examples in *.
 
 (* ------------------------------------------------------------------ *)
 (* B. generic list / table facts                                        *)
@@ -288,8 +309,9 @@ Lemma fd_get_char d i : wf ds d ->
                else KeyErr.
 Proof.
   induction d as [tbl cs bs|tbl st sp cs bs|b IH ids]; cbn [fd_get vis chain_c chain_b wf]; intros W.
-  - destruct W as [NT I]. rewrite (bassoc_sub tbl ds i ND NT I). destruct (bmem i (map fst tbl)); reflexivity.
-  - subst. rewrite get_client_in_range_spec. destruct (in_range (st, sp) i); rewrite ?andb_true_r, ?andb_false_r; [|reflexivity].
+  - destruct W as [NT I]. unfold in_memory_get_client, mem_dataset_of.
+    rewrite (bassoc_sub tbl ds i ND NT I). destruct (bmem i (map fst tbl)); reflexivity.
+  - subst. rewrite sqlite_get_client_spec. destruct (in_range (st, sp) i); rewrite ?andb_true_r, ?andb_false_r; [|reflexivity].
     destruct (bmem i keys) eqn:E; [reflexivity|]. now rewrite bassoc_mem_false.
   - destruct W as [Wb [_ Hs]]. unfold subset_get_client_raises, subset_client_size_raises.
     destruct (bmem i ids) eqn:E; cbn [negb]; [|reflexivity].
@@ -301,8 +323,9 @@ Lemma fd_size_char d i : wf ds d ->
                 else KeyErr.
 Proof.
   induction d as [tbl cs bs|tbl st sp cs bs|b IH ids]; cbn [fd_size vis wf]; intros W.
-  - destruct W as [NT I]. rewrite (bassoc_sub tbl ds i ND NT I). destruct (bmem i (map fst tbl)); reflexivity.
-  - subst. rewrite client_size_in_range_spec. destruct (in_range (st, sp) i); rewrite ?andb_true_r, ?andb_false_r; [|reflexivity].
+  - destruct W as [NT I]. unfold in_memory_client_size, mem_num_examples_of.
+    rewrite (bassoc_sub tbl ds i ND NT I). destruct (bmem i (map fst tbl)); reflexivity.
+  - subst. rewrite sqlite_client_size_spec. destruct (in_range (st, sp) i); rewrite ?andb_true_r, ?andb_false_r; [|reflexivity].
     destruct (bmem i keys) eqn:E; [reflexivity|]. now rewrite bassoc_mem_false.
   - destruct W as [Wb [_ Hs]]. unfold subset_get_client_raises, subset_client_size_raises.
     destruct (bmem i ids) eqn:E; cbn [negb]; [|reflexivity].
@@ -327,16 +350,16 @@ Proof. intros W. rewrite fd_get_char by assumption. destruct (vis d i); [destruc
 (* get_clients is the request-order walk over get_client in every implementation *)
 Lemma sub_filter_gets (get : id -> res dataset) ids req :
   (forall i, get i <> Crash) ->
-  sub_filter ids (fst (gets get req)) (snd (gets get req)) =
+  subset_get_clients ids (gets get req) =
   gets (fun i => if bmem i ids then get i else KeyErr) req.
 Proof.
-  intros NC. induction req as [|i req IH]; [reflexivity|].
+  intros NC. unfold subset_get_clients. induction req as [|i req IH]; [reflexivity|].
   cbn [gets]. destruct (get i) as [dd| |] eqn:G.
-  - destruct (gets get req) as [l e] eqn:E. cbn [fst snd sub_filter] in *.
-    unfold subset_get_clients_raises, subset_get_clients_item.
+  - destruct (gets get req) as [l e] eqn:E. cbn [fst snd for_raise_yield] in *.
+    unfold subset_get_clients_raises, subset_get_clients_item in *.
     destruct (bmem i ids) eqn:B; cbn [negb]; [|reflexivity]. rewrite IH.
     destruct (gets (fun i0 => if bmem i0 ids then get i0 else KeyErr) req); reflexivity.
-  - cbn [fst snd sub_filter]. destruct (bmem i ids); reflexivity.
+  - cbn [fst snd for_raise_yield]. destruct (bmem i ids); reflexivity.
   - exfalso. now apply (NC i).
 Qed.
 
@@ -345,8 +368,7 @@ Proof.
   revert req. induction d as [tbl cs bs|tbl st sp cs bs|b IH ids]; intros req W;
     [apply (gets_items_pair (fd_get (Mem tbl cs bs)))|apply (gets_items_pair (fd_get (Sql tbl st sp cs bs)))|].
   cbn [fd_gets]. destruct W as [Wb [Hn Hs]]. rewrite IH by assumption.
-  pose proof (sub_filter_gets (fd_get b) ids req (fun i => fd_get_no_crash b i Wb)) as H.
-  destruct (gets (fd_get b) req) as [l e]. cbn [fst snd] in H. rewrite H. apply gets_ext.
+  rewrite (sub_filter_gets (fd_get b) ids req (fun i => fd_get_no_crash b i Wb)). apply gets_ext.
   intros i. cbn [fd_get]. unfold subset_get_client_raises. destruct (bmem i ids); reflexivity.
 Qed.
 
@@ -361,7 +383,7 @@ Proof.
     + intros H. split; [|now apply bmem_In]. apply in_map_iff in H. destruct H as [x [<- Hx]].
       apply in_map. now apply I.
     + intros [_ H]. now apply bmem_In.
-  - subst. rewrite sql_select_spec. eexists; split; [reflexivity|]. rewrite map_fst_filter. f_equal.
+  - subst. gen_unfold; rewrite sql_select_spec; cbn [option_map]. eexists; split; [reflexivity|]. rewrite map_fst_filter. f_equal.
     apply filter_ext_in. intros i Hi. apply bmem_In in Hi. unfold vis. now rewrite Hi.
   - destruct W as [Wb [Hn Hs]]. exists (bsort ids). split; [reflexivity|]. rewrite bsort_idem.
     apply bsort_unique_filter; auto. intros i. split.
@@ -382,7 +404,7 @@ Proof.
   destruct d as [tbl cs bs|tbl st sp cs bs|b ids]; cbn [fd_num fd_ids] in *;
     unfold in_memory_num_clients, in_memory_client_ids, subset_num_clients, subset_client_ids in *.
   - injection E as <-. rewrite <- S. unfold mem_ids, in_memory_init_client_ids. now rewrite !bsort_length.
-  - subst. rewrite sql_select_spec in *. injection E as <-. rewrite <- S. now rewrite map_length.
+  - subst. gen_unfold; rewrite sql_select_spec in *; cbn [option_map] in *. injection E as <-. rewrite <- S. now rewrite map_length.
   - injection E as <-. rewrite <- S. now rewrite bsort_length.
 Qed.
 
@@ -396,17 +418,19 @@ Proof.
   - destruct (fd_ids_char (Mem tbl cs bs) W) as [o [E S]]. cbn [fd_ids] in E. injection E as <-.
     rewrite bsort_idem in S. exists (mem_ids tbl). split; [|exact S].
     destruct W as [NT I].
-    rewrite (omap_all _ (fun i => (i, match bassoc i ds with Some r => stored_len r | None => 0 end))); [reflexivity|].
-    intros i Hi. unfold mem_ids, in_memory_init_client_ids in Hi. apply (proj1 (bsort_In _ _)) in Hi. rewrite (bassoc_sub tbl ds i ND NT I).
+    unfold in_memory_client_sizes.
+    rewrite (for_yield_all _ (fun i => i) (fun i => match bassoc i ds with Some r => stored_len r | None => 0 end)); [reflexivity|].
+    intros i Hi. unfold in_memory_client_sizes_item, mem_num_examples_of.
+    unfold mem_ids, in_memory_init_client_ids in Hi. apply (proj1 (bsort_In _ _)) in Hi. rewrite (bassoc_sub tbl ds i ND NT I).
     apply bmem_In in Hi. rewrite Hi. apply bmem_In, in_map_iff in Hi. destruct Hi as [[k v] [Ek Hin]]. cbn in Ek; subst.
     rewrite (bassoc_NoDup_In i v ds ND (I _ Hin)). reflexivity.
   - destruct (fd_ids_char (Sql tbl st sp cs bs) W) as [o [E S]]. cbn [fd_ids] in E. subst tbl.
-    rewrite sql_select_spec in *. injection E as <-. eexists; split; [|exact S].
+    gen_unfold; rewrite sql_select_spec in *; cbn [option_map] in *. injection E as <-. eexists; split; [|exact S].
     f_equal. rewrite map_map. apply map_ext_in. intros [k v] Hin. apply filter_In in Hin. destruct Hin as [Hin _].
     cbn [fst snd]. now rewrite (bassoc_NoDup_In k v ds ND Hin).
   - destruct W as [Wb [Hn Hs]]. destruct (IH Wb) as [ob [E S]]. rewrite E.
     exists (filter (fun i => bmem i ids) ob). split.
-    + f_equal. clear. unfold subset_client_sizes_keeps.
+    + f_equal. clear. unfold subset_client_sizes, for_keep_yield, subset_client_sizes_keeps, subset_client_sizes_item.
       induction ob as [|x ob IH]; cbn; [reflexivity|]. destruct (bmem x ids); cbn; now rewrite IH.
     + rewrite bsort_filter, S, <- bsort_filter, filter_filter. f_equal. apply filter_ext_in.
       intros i _. change (vis (Sub b ids) i) with (bmem i ids).
@@ -422,9 +446,10 @@ Proof.
   - injection E as <-. rewrite bsort_idem in S. exists (mem_ids tbl). split; [|exact S].
     rewrite fd_gets_char by assumption. apply gets_all. intros i Hi. apply fd_get_vis; [assumption|].
     cbn [vis]. unfold mem_ids, in_memory_init_client_ids in Hi. apply (proj1 (bsort_In _ _)) in Hi. now apply bmem_In.
-  - cbn [wf] in W. subst tbl. rewrite sql_select_spec in *. injection E as <-. eexists; split; [|exact S].
-    rewrite (omap_all _ (fun kv => (fst kv, client_dataset (fst kv) cs bs (snd kv)))) by reflexivity.
-    f_equal. rewrite map_map. apply map_ext_in. intros [k v] Hin. apply filter_In in Hin. destruct Hin as [Hin _].
+  - cbn [wf] in W. subst tbl. gen_unfold; rewrite sql_select_spec in *; cbn [option_map] in *. injection E as <-. eexists; split; [|exact S].
+    unfold sqlite_clients.
+    rewrite (for_yield_all _ (fun kv => fst kv) (fun kv => client_dataset (fst kv) cs bs (snd kv))) by (intros [k v] _; reflexivity).
+    f_equal. rewrite !map_map. apply map_ext_in. intros [k v] Hin. apply filter_In in Hin. destruct Hin as [Hin _].
     unfold content. cbn [fst snd chain_c chain_b]. now rewrite (bassoc_NoDup_In k v ds ND Hin).
   - injection E as <-. rewrite bsort_idem in S. exists (bsort ids). split; [|now rewrite bsort_idem].
     rewrite fd_gets_char by assumption. apply gets_all. intros i Hi. apply fd_get_vis; [assumption|].
@@ -950,6 +975,9 @@ Proof.
     eapply Permutation_in; [apply Permutation_map, Permutation_sym, P|exact H].
 Qed.
 
+Lemma for_yield_ext {X K D} (f g : X -> K * res D) l : (forall x, f x = g x) -> for_yield f l = for_yield g l.
+Proof. intros H. induction l as [|x l IH]; cbn; [reflexivity|]. now rewrite H, IH. Qed.
+
 Lemma omap_ext {A B} (f g : A -> option B) l : (forall x, f x = g x) -> omap f l = omap g l.
 Proof. intros H. induction l as [|x l IH]; cbn; [reflexivity|]. now rewrite H, IH. Qed.
 
@@ -965,18 +993,22 @@ Proof.
   assert (M : mem_ids tbl = mem_ids tbl').
   { unfold mem_ids, in_memory_init_client_ids. apply bsort_perm_unique; [exact N|]. now apply Permutation_map. }
   assert (L : forall i, bassoc i tbl = bassoc i tbl') by (intros i; now apply bassoc_perm).
-  assert (G : forall i, fd_get (Mem tbl cs bs) i = fd_get (Mem tbl' cs bs) i) by (intros i; cbn [fd_get]; now rewrite L).
+  assert (MD : forall i, mem_dataset_of tbl cs bs i = mem_dataset_of tbl' cs bs i)
+    by (intros i; unfold mem_dataset_of; now rewrite L).
+  assert (MN : forall i, mem_num_examples_of tbl i = mem_num_examples_of tbl' i)
+    by (intros i; unfold mem_num_examples_of; now rewrite L).
+  assert (G : forall i, fd_get (Mem tbl cs bs) i = fd_get (Mem tbl' cs bs) i)
+    by (intros i; cbn [fd_get]; unfold in_memory_get_client; apply MD).
   assert (GS : forall req, fd_gets (Mem tbl cs bs) req = fd_gets (Mem tbl' cs bs) req).
-  { intros req. cbn [fd_gets].
-    rewrite (gets_items_pair (fd_get (Mem tbl cs bs))), (gets_items_pair (fd_get (Mem tbl' cs bs))). now apply gets_ext. }
+  { intros req. cbn [fd_gets]. unfold in_memory_get_clients. apply for_yield_ext.
+    intros i. unfold in_memory_get_clients_item. now rewrite MD. }
   repeat split.
   - cbn [fd_num]. now rewrite M.
   - cbn [fd_ids]. now rewrite M.
-  - cbn [fd_sizes]. rewrite M.
-    rewrite (omap_ext _ (fun i => match bassoc i tbl' with Some r => Some (i, stored_len r) | None => None end));
-      [reflexivity|]. intros i. now rewrite L.
+  - cbn [fd_sizes]. rewrite M. unfold in_memory_client_sizes. f_equal. apply for_yield_ext.
+    intros i. unfold in_memory_client_sizes_item. now rewrite MN.
   - unfold fd_clients. rewrite M. apply GS.
-  - cbn [fd_size]. now rewrite L.
+  - cbn [fd_size]. unfold in_memory_client_size. apply MN.
   - apply G.
   - apply GS.
   - intros s e. cbn [fd_slice]. rewrite M. destruct (in_memory_slice_ids (mem_ids tbl') s e) as [ids|]; [|reflexivity].
@@ -1007,23 +1039,34 @@ Proof.
     rewrite (map_ext (fun i => (i, spec_dataset_of ds (fst (spec_run ds view0 ops)) i)) (fun i => (i, content ds d i)))
       by (intros i; now rewrite (content_spec ds d _ i HR)).
     apply Permutation_map, bsort_perm. }
-  assert (Generic : forall l, fd_clients d = (l, Done) ->
-            exists out, match C15_Model.buffered_shuffle B code draws l false with
-                        | C15_Model.SOk out' => Some out' | _ => None end = Some out /\ Permutation l out).
-  { intros l _. destruct (C15_Proofs.buffered_shuffle_perm B code draws l HB HD) as [out [Es P]]. rewrite Es. now exists out. }
+  assert (Sh : forall S (l : list S), exists out, shuffle1 B code draws l = Some out /\ Permutation l out).
+  { intros S l. unfold shuffle1. destruct (C15_Proofs.buffered_shuffle_perm B code draws l HB HD) as [out [Es P]].
+    rewrite Es. now exists out. }
   destruct d as [tbl cs bs|tbl st sp cs bs|b ids].
-  - destruct (Generic _ Ec) as [out [Eo' P]]. exists (Mem tbl cs bs), fl, out. split; [exact E|].
-    split; [unfold fd_shuffled_pass; rewrite Ec; exact Eo'|]. now rewrite <- P.
+  - destruct (Sh _ (map (fun i => (i, content ds (Mem tbl cs bs) i)) oc)) as [out [Eo' P]].
+    exists (Mem tbl cs bs), fl, out. split; [exact E|].
+    split; [unfold fd_shuffled_pass, in_memory_shuffled_pass; rewrite Ec, Eo'; cbn [option_map]; now rewrite map_id|].
+    now rewrite <- P.
   - exists (Sql tbl st sp cs bs), fl. cbn [wf] in W. subst tbl. unfold fd_shuffled_pass.
-    cbn [fd_clients] in Ec. rewrite sql_select_spec in *.
+    cbn [fd_clients] in Ec. gen_unfold; rewrite sql_select_spec in *; cbn [option_map] in *.
     set (rows := filter (fun kv => in_range (st, sp) (fst kv)) ds) in *.
     set (h := fun kv : bytes * list Z => (fst kv, client_dataset (fst kv) cs bs (snd kv))).
-    rewrite (omap_all _ h) in Ec by reflexivity. injection Ec as Ec.
-    destruct (C15_Proofs.buffered_shuffle_perm B code draws rows HB HD) as [out [Es P]]. rewrite Es.
-    exists (map h out). split; [exact E|]. split; [now apply omap_all|].
-    rewrite <- PC, <- Ec. apply Permutation_map. now symmetry.
-  - destruct (Generic _ Ec) as [out [Eo' P]]. exists (Sub b ids), fl, out. split; [exact E|].
-    split; [unfold fd_shuffled_pass; rewrite Ec; exact Eo'|]. now rewrite <- P.
+    unfold sqlite_clients in Ec.
+    rewrite (for_yield_all _ (fun kv => fst kv) (fun kv => client_dataset (fst kv) cs bs (snd kv))) in Ec
+      by (intros [k v] _; reflexivity).
+    injection Ec as Ec. rewrite map_map in Ec. cbn [fst snd] in Ec.
+    destruct (Sh _ (map (fun row : bytes * list Z => (fst row, snd row)) rows)) as [out [Es P]].
+    unfold sqlite_shuffled_pass. rewrite Es. cbn [option_map].
+    exists (map h out). split; [exact E|]. split.
+    + clear. induction out as [|[k v] out IH]; cbn [map omap]; [reflexivity|]. rewrite IH. reflexivity.
+    + rewrite <- PC, <- Ec. fold h.
+      assert (Q : map h rows = map h (map (fun row : bytes * list Z => (fst row, snd row)) rows)).
+      { rewrite map_map. apply map_ext. intros [k v]. reflexivity. }
+      rewrite Q. apply Permutation_map. now symmetry.
+  - destruct (Sh _ (map (fun i => (i, content ds (Sub b ids) i)) oc)) as [out [Eo' P]].
+    exists (Sub b ids), fl, out. split; [exact E|].
+    split; [unfold fd_shuffled_pass, subset_shuffled_pass; rewrite Ec, Eo'; cbn [option_map]; now rewrite map_id|].
+    now rewrite <- P.
 Qed.
 End Shuffle.
 
@@ -1086,10 +1129,11 @@ Proof.
     { rewrite map_fst_filter. apply filter_ext_in. intros i Hi. destruct HR as [_ [Hv _]]. specialize (Hv i).
       cbn [vis] in Hv. unfold spec_has in Hv. apply bmem_In in Hi. rewrite Hi in Hv. cbn [andb] in Hv. now rewrite <- Hv. }
     split; [|split].
-    + rewrite Ei. f_equal. cbn [fd_ids] in Ei. rewrite sql_select_spec in Ei. injection Ei as <-. now rewrite F.
-    + cbn [fd_clients]. rewrite sql_select_spec.
-      rewrite (omap_all _ (fun kv => (fst kv, client_dataset (fst kv) cs bs (snd kv)))) by reflexivity.
-      cbn [fst]. rewrite map_map. cbn [fst]. now rewrite F.
+    + rewrite Ei. f_equal. cbn [fd_ids] in Ei. gen_unfold; rewrite sql_select_spec in Ei; cbn [option_map] in Ei. injection Ei as <-. now rewrite F.
+    + cbn [fd_clients]. gen_unfold; rewrite sql_select_spec; cbn [option_map].
+      unfold sqlite_clients.
+      rewrite (for_yield_all _ (fun kv => fst kv) (fun kv => client_dataset (fst kv) cs bs (snd kv))) by (intros [k v] _; reflexivity).
+      cbn [fst]. rewrite !map_map. cbn [fst]. now rewrite F.
     + rewrite E2. reflexivity.
   - cbn [fd_ids] in E1. injection E1 as <-. rewrite E2. cbn [fst snd]. rewrite MF. split; [|split; [|reflexivity]].
     + cbn [fd_ids]. f_equal.
@@ -1101,3 +1145,101 @@ Proof.
       apply sorted_enum_unique; [now rewrite bsort_idem|]. rewrite E2. exact S2.
 Qed.
 End Order.
+
+(* ------------------------------------------------------------------ *)
+(* chains handed to the constructors = chains registered one by one     *)
+
+Section CtorChains.
+Variable ds : table.
+Hypothesis ND : NoDup (map fst ds).
+
+Lemma spec_has_ext v1 v2 i : v_ranges v1 = v_ranges v2 -> v_subsets v1 = v_subsets v2 ->
+  spec_has ds v1 i = spec_has ds v2 i.
+Proof. intros E1 E2. unfold spec_has, visible. now rewrite E1, E2. Qed.
+
+Lemma spec_run_view_ops ops : forall v1 v2,
+  v_ranges v1 = v_ranges v2 -> v_subsets v1 = v_subsets v2 ->
+  v_ranges (fst (spec_run ds v1 (view_ops ops))) = v_ranges (fst (spec_run ds v2 ops)) /\
+  v_subsets (fst (spec_run ds v1 (view_ops ops))) = v_subsets (fst (spec_run ds v2 ops)) /\
+  v_c (fst (spec_run ds v1 (view_ops ops))) = v_c v1 /\ v_b (fst (spec_run ds v1 (view_ops ops))) = v_b v1.
+Proof.
+  induction ops as [|o ops IH]; intros v1 v2 E1 E2; [cbn; auto|].
+  destruct o as [s e|ids|f|g]; cbn [view_ops filter spec_run spec_apply].
+  - specialize (IH (mkView ((s, e) :: v_ranges v1) (v_subsets v1) (v_c v1) (v_b v1))
+                   (mkView ((s, e) :: v_ranges v2) (v_subsets v2) (v_c v2) (v_b v2))).
+    fold (view_ops ops). cbn [v_ranges v_subsets v_c v_b] in IH.
+    destruct (spec_run ds _ (view_ops ops)), (spec_run ds _ ops). cbn [fst] in *. apply IH; congruence.
+  - fold (view_ops ops).
+    rewrite (forallb_ext_eq (spec_has ds v1) (spec_has ds v2) ids (fun i => spec_has_ext v1 v2 i E1 E2)).
+    destruct (forallb (spec_has ds v2) ids).
+    + specialize (IH (mkView (v_ranges v1) (ids :: v_subsets v1) (v_c v1) (v_b v1))
+                     (mkView (v_ranges v2) (ids :: v_subsets v2) (v_c v2) (v_b v2))).
+      cbn [v_ranges v_subsets v_c v_b] in IH.
+      destruct (spec_run ds _ (view_ops ops)), (spec_run ds _ ops). cbn [fst] in *. apply IH; congruence.
+    + specialize (IH v1 v2 E1 E2).
+      destruct (spec_run ds v1 (view_ops ops)), (spec_run ds v2 ops). cbn [fst] in *. exact IH.
+  - fold (view_ops ops). specialize (IH v1 (mkView (v_ranges v2) (v_subsets v2) (v_c v2 ++ [f]) (v_b v2)) E1 E2).
+    destruct (spec_run ds v1 (view_ops ops)), (spec_run ds _ ops). cbn [fst] in *. exact IH.
+  - fold (view_ops ops). specialize (IH v1 (mkView (v_ranges v2) (v_subsets v2) (v_c v2) (v_b v2 ++ [g])) E1 E2).
+    destruct (spec_run ds v1 (view_ops ops)), (spec_run ds _ ops). cbn [fst] in *. exact IH.
+Qed.
+
+Theorem ctor_chain_equiv : forall ops (sql : bool),
+  let d0 := if sql then Sql ds None None (ops_c ops) (ops_b ops) else Mem ds (ops_c ops) (ops_b ops) in
+  exists d fl, fd_run d0 (view_ops ops) = Some (d, fl) /\ obs_equiv ds (fst (spec_run ds view0 ops)) d.
+Proof.
+  intros ops sql d0.
+  set (v0 := mkView [] [] (ops_c ops) (ops_b ops)).
+  assert (R0 : R ds d0 v0).
+  { unfold d0. destruct sql.
+    - split; [reflexivity|]. split; [|split; reflexivity]. intros i. unfold spec_has, visible. cbn. now rewrite !andb_true_r.
+    - split; [cbn; split; [exact ND|apply incl_refl]|]. split; [|split; reflexivity].
+      intros i. unfold spec_has, visible. cbn. now rewrite andb_true_r. }
+  destruct (run_refines ds ND (view_ops ops) d0 v0 R0) as [d [fl [E [_ HR]]]].
+  exists d, fl. split; [exact E|]. apply R_obs_equiv; [exact ND|].
+  destruct (spec_run_view_ops ops v0 view0 eq_refl eq_refl) as [Er [Es [Ec Eb]]].
+  destruct (spec_run_chains ds ops view0) as [C1 C2]. cbn [view0 v_c v_b app] in C1, C2.
+  destruct HR as [W [Hv [Hc Hb]]]. split; [exact W|]. split; [|split].
+  - intros i. rewrite Hv. now apply spec_has_ext.
+  - rewrite Hc, Ec, C1. reflexivity.
+  - rewrite Hb, Eb, C2. reflexivity.
+Qed.
+End CtorChains.
+
+(* ------------------------------------------------------------------ *)
+(* the translated method bodies, in closed form                         *)
+
+Theorem translated_methods : forall st sp (tbl : list (bytes * list Z)) cs bs,
+  let rows := filter (fun kv => in_range (st, sp) (fst kv)) tbl in
+  sqlite_num_clients st sp tbl = Some (Z.of_nat (length rows)) /\
+  sqlite_client_ids st sp tbl = Some (map fst rows) /\
+  sqlite_client_sizes col_num_examples st sp tbl = Some (map (fun kv => (fst kv, stored_len (snd kv))) rows) /\
+  sqlite_read_clients col_data st sp tbl = Some (map (fun kv => (fst kv, snd kv)) rows) /\
+  (forall i, sqlite_client_size col_num_examples st sp tbl i =
+             if in_range (st, sp) i then match bassoc i tbl with Some r => Val (stored_len r) | None => KeyErr end else KeyErr) /\
+  (forall i, sqlite_get_client col_data (sql_dataset_of cs bs) st sp tbl i =
+             if in_range (st, sp) i then match bassoc i tbl with Some r => Val (client_dataset i cs bs r) | None => KeyErr end else KeyErr) /\
+  (forall get req, in_memory_get_clients get req = gets get req) /\
+  (forall get req, sqlite_get_clients get req = gets get req) /\
+  (forall ids get req, (forall i, get i <> Crash) ->
+     subset_get_clients ids (gets get req) = gets (fun i => if bmem i ids then get i else KeyErr) req) /\
+  (forall ids (l : list (bytes * Z)), subset_client_sizes ids l = filter (fun kv => bmem (fst kv) ids) l) /\
+  (forall S (shuffle : list S -> option (list S)) l,
+     in_memory_shuffled_pass shuffle l = shuffle l /\ subset_shuffled_pass shuffle l = shuffle l).
+Proof.
+  intros st sp tbl cs bs rows. unfold rows.
+  repeat split.
+  - gen_unfold. rewrite sql_select_spec. reflexivity.
+  - gen_unfold. rewrite sql_select_spec. reflexivity.
+  - gen_unfold. rewrite sql_select_spec. reflexivity.
+  - gen_unfold. rewrite sql_select_spec. reflexivity.
+  - intros i. apply sqlite_client_size_spec.
+  - intros i. apply sqlite_get_client_spec.
+  - intros get req. apply (gets_items_pair get).
+  - intros get req. apply (gets_items_pair get).
+  - intros ids get req NC. now apply sub_filter_gets.
+  - intros ids l. unfold subset_client_sizes, for_keep_yield, subset_client_sizes_keeps, subset_client_sizes_item.
+    induction l as [|[k v] l IH]; cbn; [reflexivity|]. destruct (bmem k ids); cbn; now rewrite IH.
+  - unfold in_memory_shuffled_pass. destruct (shuffle l); cbn; [now rewrite map_id|reflexivity].
+  - unfold subset_shuffled_pass. destruct (shuffle l); cbn; [now rewrite map_id|reflexivity].
+Qed.
